@@ -86,7 +86,7 @@ def gen_scenario(rng, profile):
                      % (ch, hx(b"k1"), rng.randint(1, 9), 900 + ch, ch))
         t = touch(ch)
         t.top = t.lb = 1
-        t.keys[b"k1"] = {"off": 1, "ver": 0, "score": ch}
+        t.keys[b"k1"] = {"off": 1, "ver": 0, "vep": 0, "score": ch}
     n = rng.randint(10, 40)
     for i in range(n):
         r = rng.random()
@@ -97,10 +97,25 @@ def gen_scenario(rng, profile):
         ordered = ch < 3 and modes[ch][3] == 1
         if r < 0.5:
             old = t.keys.get(key)
-            ver = 0
-            if rng.random() < 0.4:
-                ver = max(1, (old["ver"] if old else 2) + rng.choice([-1, 0, 0, 1, 2]))
-            vep = 0 if rng.random() < 0.6 else rng.randint(1, 2)
+            # versions: fresh ones, and — with the stored (version, version epoch) of the key in view — stale / equal /
+            # newer versions in the same epoch, epoch switches, and unversioned publishes in between (which must
+            # preserve both the stored version and its epoch)
+            ver, vep = 0, 0
+            if old and old["ver"] > 0 and rng.random() < 0.65:
+                q = rng.random()
+                if q < 0.3:
+                    ver, vep = 0, 0                                              # unversioned publish of a versioned key
+                elif q < 0.8:
+                    ver = max(1, old["ver"] + rng.choice([-2, -1, 0, 0, 1]))      # stale / equal / next, same epoch
+                    vep = old["vep"]
+                elif q < 0.9:
+                    ver = max(1, old["ver"] + rng.choice([-1, 0, 1]))             # epoch switch
+                    vep = rng.choice([x for x in (0, 1, 2, 3) if x != old["vep"]])
+                else:
+                    ver, vep = max(1, old["ver"] - 1), 0                          # empty epoch matches any stored epoch
+            elif rng.random() < 0.45:
+                ver = rng.randint(1, 6)
+                vep = rng.choice([0, 1, 1, 2])
             cas = "-" if rng.random() < 0.7 else pos(ch, old["off"] if old else t.top)
             score = rng.choice([-5, 0, 0, 3, 3, 3, 7, rng.randint(-3, 3), 10 ** 12])
             mode = rng.choice("rrrrrnnnxx")
@@ -112,7 +127,8 @@ def gen_scenario(rng, profile):
             t.top += 1
             if mode == "r" and cas == "-" and ver == 0 and idem == 0:
                 t.lb += 1
-            t.keys[key] = {"off": t.top, "ver": ver or (old["ver"] if old else 0), "score": score}
+            t.keys[key] = {"off": t.top, "ver": ver or (old["ver"] if old else 0),
+                           "vep": vep if ver else (old["vep"] if old else 0), "score": score}
         elif r < 0.65 and not ordered:
             # (removals on ordered channels: finding C23-2 — the Redis broker never removes the key from the order
             # zset — would end the comparison of every such scenario; they are covered by the stored replay)
